@@ -524,7 +524,19 @@ impl<'a> Unparser<'a> {
             } else {
                 " for "
             })?;
-            self.unparse_expr(&comp.target, precedence::TUPLE)?;
+            // The target is a bare list of or-expressions (the grammar's ExpressionList), so
+            // the elements of an unparenthesized tuple target are rendered at that level.
+            match &comp.target {
+                Expr::Tuple(crate::ExprTuple { elts, .. }) if !elts.is_empty() => {
+                    let mut first = true;
+                    for elt in elts {
+                        self.p_delim(&mut first, ", ")?;
+                        self.unparse_expr(elt, precedence::EXPR)?;
+                    }
+                    self.p_if(elts.len() == 1, ",")?;
+                }
+                target => self.unparse_expr(target, precedence::EXPR)?,
+            }
             self.p(" in ")?;
             self.unparse_expr(&comp.iter, precedence::TEST + 1)?;
             for cond in &comp.ifs {
